@@ -396,10 +396,18 @@ PROPS["C01"] = {
              "and failed dials before the next carrier. Oracle: every chunk read at either end is compared with the PRNG stream of (session, "
              "direction) at the current offset (prefix rule: detects missing, duplicated, reordered, foreign bytes at the first wrong byte), "
              "both directions complete when the last carrier is healthy (stall rule: 40 s without progress, then a solitary re-run with 80 s), "
-             "exactly one accepted connection. Non-trivial = at least one carrier fault and more than 3000 payload bytes."),
+             "exactly one accepted connection. Non-trivial = at least one carrier fault and more than 3000 payload bytes. "
+             "c01_system (tier 2, thorough only): the unmodified broker and proxy binaries as processes, the real client library (rendezvous, "
+             "WebRTC, Peers, staleness, redial) and the real server library in the harness process, a fake RFC 5780 STUN responder, a relay "
+             "forwarder and a reverse proxy in front of the broker; generated: payloads {0, 1, 50 K, 300 K, 2 Mi, 6 Mi} both ways, 1-3 proxies, "
+             "max 1-2 peers, first rendezvous answer lost/delayed, 0-3 timed faults out of {SIGKILL, SIGTERM, SIGSTOP d + SIGCONT of a proxy, "
+             "relay TCP cut / reset, broker answer lost / delayed, extra proxy}; a fresh proxy is always available in the end. Same byte-exact "
+             "oracle; a whole-system stall (150 s without progress) is recorded as inconclusive, never as a violation. Non-trivial = at least "
+             "one fault and >= 300 KB of payload."),
     "assumptions": ["the WebRTC hop, Peers, staleness detection and the proxy copy loop are not in tier 1 (model client speaks WebSocket directly to the server)",
                     "a missed real-time deadline is never a violation by itself: a stall is re-run alone with a doubled budget"],
-    "units": [U("c01_transport", "ext", "c01", "^TestVerifC01Transport$", (60, 1500), shards=(8, 16), timeout=(400, 3000))],
+    "units": [U("c01_transport", "ext", "c01", "^TestVerifC01Transport$", (60, 1500), shards=(8, 16), timeout=(400, 3000)),
+              U("c01_system", "ext", "sys", "^TestVerifC01System$", (0, 12), shards=(0, 8), timeout=(400, 3400), tiers=["thorough"])],
 }
 META["C01"] = {
     "level": "Sampled exploration of fault sequences and payloads: byte-exact prefix oracle on both ends of the real server transport with injected carrier faults at generated byte offsets; whole-system runs with real binaries in the thorough tier.",
